@@ -823,6 +823,17 @@ func checkFile(f reflds.File) (d diffs, accepted bool) {
 			foreignOK[o.kind.DG()] = true
 			d.add("wrong-file-accepted/"+o.name+"("+string(f.Kind)+")", "%s accepted a %s file (%s) without error", o.name, f.Kind, f.Label)
 		}
+		// ... also when a genuine file of the constructor's own kind FOLLOWS the foreign one: the outer tag of these
+		// bytes is still the foreign file's (everything behind the first data object would be hashed but never shown)
+		if own := seedsOfKind(o.kind); len(own) > 0 && len(own[0]) > 0 && len(f.Bytes) > 0 && own[0][0] != f.Bytes[0] {
+			both := append(bytes.Clone(f.Bytes), own[0]...)
+			oo, oerr = nil, nil
+			if pv, _ := vc.Guard(func() { oo, oerr = o.call(both) }); pv != nil {
+				d.add("panic/"+o.name+"("+string(f.Kind)+"+own)", "%s panicked on a %s file followed by a file of its own kind: %v", o.name, f.Kind, pv)
+			} else if oerr == nil && oo != nil {
+				d.add("wrong-file-accepted/outer-tag-foreign-own-object-behind/"+o.name, "%s accepted bytes whose outer tag is that of a %s file (%s) because a data object of its own kind follows behind it", o.name, f.Kind, f.Label)
+			}
+		}
 	}
 	// Document.NewDG under every data-group number
 	if f.Kind != reflds.KDIR {
